@@ -46,6 +46,7 @@ def _pred(fi):
 
 def run(rep):
     rep.run(relabel_in_place)
+    rep.run(pregrouping_is_the_callers)
     rep.run(predicate)
     rep.run(iterative)
     rep.run(fit)
@@ -273,6 +274,28 @@ def incremental(rep):
     rep.ob("O13.2", "SHAPE", fi, ok, st, "candidates are the representatives with the same pre-grouping attribute")
     rets = returns_of(fi.node)
     rep.ob("O13.2", "SHAPE", fi, bool(rets) and norm(rets[-1].value) == f"({DATA}, {TEMPL})", rets[-1] if rets else "return", "the classified item and the (possibly extended) representatives are returned")
+
+
+def pregrouping_is_the_callers(rep):
+    """the pre-grouping attribute is an input (isomorphism-invariant by the caller's promise) or absent - then an entry is compared with every candidate.
+    Clustering code that fills it in itself decides which templates an entry is ever compared with by a key of its own making (a WL hash renders labels as
+    text: 0 / 0.0 / False differ although the matcher's `eq` does not tell them apart) - isomorphic items are then never compared"""
+    hits = []
+    for rel, cls in ((BC, "BatchCluster."), (GC, "GraphCluster.")):
+        for q, f in sorted(rep.repo.module(rel).funcs.items()):
+            if not q.startswith(cls):
+                continue
+            for st in walk_local(f.node):
+                if isinstance(st, ast.Assign):
+                    for t in st.targets:
+                        if isinstance(t, ast.Subscript) and isinstance(t.slice, ast.Name) and t.slice.id in ("attribute_key", "attr_key", "attributeKey") \
+                                and any(isinstance(c_, ast.Call) for c_ in ast.walk(st.value)):
+                            hits.append((f, st))
+    for f, st in hits:
+        rep.ob("O13.1", "R13", f, False, st, "the pre-grouping attribute comes from the caller or is absent (here the clustering computes it itself: which representatives an item "
+               "is compared with now depends on a key that is finer than the isomorphism test)", node=st)
+    if not hits:
+        rep.ob("O13.1", "R13", f"{BC}:BatchCluster", True, "no store under attribute_key", "the pre-grouping attribute comes from the caller or is absent")
 
 
 def relabel_in_place(rep):
